@@ -361,6 +361,7 @@ async fn run_case(h: usize, tag: &str, t: &Table, fmt: Fmt, o: &Opts, base: &FsP
     let idsel = vec![("id".to_string(), Ty::I)];
     let mut files_js = vec![];
     let mut seen_ids: Vec<i64> = vec![];
+    let mut file_ids: Vec<Vec<i64>> = vec![];
     for f in &files {
         let url = format!("{}/{}", dirs, f.join("/"));
         // the local object store keeps percent-encoded names on disk; ListingTableUrl::parse of a file-system
@@ -369,6 +370,7 @@ async fn run_case(h: usize, tag: &str, t: &Table, fmt: Fmt, o: &Opts, base: &FsP
             Ok(rows) => {
                 let ids: Vec<i64> = rows.iter().map(|r| if let Cell::I(v) = r[0] { v } else { -1 }).collect();
                 seen_ids.extend(ids.iter());
+                file_ids.push(ids.clone());
                 files_js.push(format!("{{\"path\":[{}],\"ids\":[{}]}}", f.iter().map(|s| json_str(s)).collect::<Vec<_>>().join(","), ids.iter().map(|i| i.to_string()).collect::<Vec<_>>().join(",")));
             }
             Err(e) => { why.push_str(&format!("reading file {:?} alone failed: {e}; ", f)); }
@@ -383,6 +385,22 @@ async fn run_case(h: usize, tag: &str, t: &Table, fmt: Fmt, o: &Opts, base: &FsP
     let expect_rows: Vec<Vec<Cell>> = t.batches.iter().flatten().cloned().collect();
     let mut expect: Vec<String> = expect_rows.iter().map(|r| r.iter().map(|c| norm(fmt, c)).collect::<Vec<_>>().join("|")).collect();
     expect.sort();
+    // input class of listed finding KF-C25-3: a Parquet file in which a Float64 column holds NaN, exactly one
+    // distinct non-NaN value and no NULL (min == max in the file statistics although the column is not constant)
+    let mut nan_const = false;
+    if fmt == Fmt::Parquet {
+        for ids in &file_ids {
+            for (ci, (n, ty)) in t.cols.iter().enumerate() {
+                if *ty != Ty::F || (!o.keep && t.pby.contains(n)) { continue; }
+                let vals: Vec<&Cell> = ids.iter().filter_map(|i| expect_rows.get(*i as usize)).map(|r| &r[ci]).collect();
+                let has_null = vals.iter().any(|c| matches!(c, Cell::N));
+                let has_nan = vals.iter().any(|c| matches!(c, Cell::F(f) if f.is_nan()));
+                let mut distinct: Vec<u64> = vals.iter().filter_map(|c| if let Cell::F(f) = c { if f.is_nan() { None } else { Some(f.to_bits()) } } else { None }).collect();
+                distinct.sort(); distinct.dedup();
+                if !has_null && has_nan && distinct.len() == 1 { nan_const = true; }
+            }
+        }
+    }
     let mut got_js = "null".to_string();
     let mut readback_ok = false;
     if files.is_empty() && nrows == 0 {
@@ -405,7 +423,7 @@ async fn run_case(h: usize, tag: &str, t: &Table, fmt: Fmt, o: &Opts, base: &FsP
     }
     let ok = why.is_empty() && readback_ok;
     let _ = std::fs::remove_dir_all(&dir);
-    Some(Outcome { line: format!("{{{head},\"files\":[{}],\"readback\":{},\"ok\":{ok},\"why\":{}}}", files_js.join(","), if ok { "null".to_string() } else { got_js }, json_str(&why)) })
+    Some(Outcome { line: format!("{{{head},\"nan_const\":{nan_const},\"files\":[{}],\"readback\":{},\"ok\":{ok},\"why\":{}}}", files_js.join(","), if ok { "null".to_string() } else { got_js }, json_str(&why)) })
 }
 
 /// text of a cell as the CSV writer prints it (only the types whose text the harness can state independently)
@@ -472,6 +490,9 @@ fn fixed_tables() -> Vec<(&'static str, Table, Fmt, bool, bool)> {
     v.push(("W5-hostile-values", Table { cols: vec![("p1".into(), Ty::S), ("id".into(), Ty::I), ("p0".into(), Ty::S)], pby: vec!["p0".into(), "p1".into()],
         batches: vec![vec![vec![s("a/b"), Cell::I(0), s("100%")], vec![s("a=b"), Cell::I(1), s("%2F")], vec![s(".."), Cell::I(2), s("\u{65e5}\u{672c}")]],
                       vec![vec![s("a/b"), Cell::I(3), s("100%")], vec![s(" x "), Cell::I(4), s("A")], vec![s(" x "), Cell::I(5), s("a")]]] }, Fmt::Csv, false, false));
+    // W6: a Parquet file whose Float64 column holds one non-NaN value and a NaN
+    v.push(("W6-parquet-nan-constant-column", Table { cols: vec![("id".into(), Ty::I), ("d0".into(), Ty::F)], pby: vec![],
+        batches: vec![vec![vec![Cell::I(0), Cell::F(1.5)], vec![Cell::I(1), Cell::F(f64::NAN)]]] }, Fmt::Parquet, false, false));
     v
 }
 
